@@ -136,7 +136,8 @@ class Shard:
         }
         self._hashes = set()
         self._sample_best = {}
-        self.case_timeout = int(os.environ.get("VERIF_CASE_TIMEOUT", "300"))
+        self.case_timeout = int(os.environ.get(
+            "VERIF_CASE_TIMEOUT", getattr(mod, "CASE_TIMEOUT", 300)))
 
     # -- one case ---------------------------------------------------------
     def run_case(self, kind, case, from_regress=False):
@@ -155,7 +156,18 @@ class Shard:
             except Expect as e:
                 out = Outcome("violation", signature=e.signature,
                               detail=e.detail)
-            except (CaseTimeout, Inconclusive):
+            except CaseTimeout:
+                tsig = getattr(self.mod, "TIMEOUT_SIGNATURE", None)
+                if tsig:
+                    # the property module declares that a case of its (small)
+                    # size that does not finish is a defect of the subject
+                    out = Outcome("violation", signature=tsig,
+                                  detail="no result after %d s" %
+                                  self.case_timeout)
+                else:
+                    fr["inconclusive"] += 1
+                    out = Outcome("inconclusive")
+            except Inconclusive:
                 fr["inconclusive"] += 1
                 out = Outcome("inconclusive")
             except BaseException as e:  # noqa: BLE001 - classified below
